@@ -900,6 +900,9 @@ pub fn gen_multi_case(r: &mut Rng, cfg: &GenCfg) -> Case {
     let mut t = 0u64;
     let mut ops: Vec<(u64, Op)> = vec![];
     let n = r.range(3, cfg.max_ops as u64) as usize;
+    // a few cases per hundred also add / insert a bar that IS a member at that moment (documented as
+    // "no effect"; fix bee77c9, class member-added-twice-leaves-ghost-slot before it)
+    let readd = r.chance(1, 20);
     let mut burst_left = 0;
     for _ in 0..n {
         if burst_left > 0 {
@@ -913,7 +916,17 @@ pub fn gen_multi_case(r: &mut Rng, cfg: &GenCfg) -> Case {
         let members: Vec<usize> = (0..nb).filter(|&i| st[i] == St::Member).collect();
         let detached: Vec<usize> = (0..nb).filter(|&i| st[i] == St::Detached).collect();
         let roll = r.below(100);
-        let op = if (members.is_empty() || (roll < cfg.w_struct && !detached.is_empty())) && !detached.is_empty() {
+        let op = if readd && !members.is_empty() && r.chance(1, 5) {
+            let b = *r.pick(&members);
+            let loc = match r.below(5) {
+                0 => Loc::End,
+                1 => Loc::Index(r.below(members.len() as u64 + 2) as usize),
+                2 => Loc::FromBack(r.below(members.len() as u64 + 2) as usize),
+                3 => Loc::After(*r.pick(&members)),
+                _ => Loc::Before(*r.pick(&members)),
+            };
+            Op::Insert(loc, b)
+        } else if (members.is_empty() || (roll < cfg.w_struct && !detached.is_empty())) && !detached.is_empty() {
             let b = *r.pick(&detached);
             st[b] = St::Member;
             let loc = if members.is_empty() {
